@@ -611,7 +611,8 @@ def sendY (T : TcFacts) (c v : Opnd) : Res Unit := do
     | _ => .err
   else .ok ()
 
-/-- cfg.go ifStmt*/forStmt*: `!isBool(cond.typ)` sets the error, then `cond.rval.Bool()` runs anyway -/
+/-- cfg.go ifStmt*/forStmt*: `!isBool(cond.typ)` sets the error; when the clause does not leave at that point
+    (`condBoolGuarded = false`, the tree before the repair of F11) `cond.rval.Bool()` runs on the constant and panics -/
 def condY (T : TcFacts) (c : Opnd) : Res Unit := do
   let k ← kindOf c.ty
   let isBool := k == .bool
